@@ -177,14 +177,15 @@ class G:
         if r.random() < 0.4:
             sql += " order by " + ", ".join(self.expr(1) + r.choice(["", " asc", " desc"]) for _ in range(r.randint(1, 2)))
         x = r.random()
+        num = lambda: r.choice([0, r.randint(1, 99), r.randint(1, 99), r.randint(1, 99)])      # zero is a value like any other
         if x < 0.3:
-            sql += " limit %d" % r.randint(1, 99)
+            sql += " limit %d" % num()
             if r.random() < 0.5:
-                sql += " offset %d" % r.randint(1, 99)
+                sql += " offset %d" % num()
         elif x < 0.4:
             if r.random() < 0.5:
-                sql += " offset %d rows" % r.randint(1, 99)
-            sql += " fetch %s %d rows only" % (r.choice(["first", "next"]), r.randint(1, 99))
+                sql += " offset %d rows" % num()
+            sql += " fetch %s %d rows only" % (r.choice(["first", "next"]), num())
         if r.random() < 0.08 and self.locking:
             sql += " for %s of %s%s" % (r.choice(["update", "share"]), self.ident("t"), r.choice(["", " nowait"]))
         return sql
@@ -222,7 +223,12 @@ class G:
         if r.random() < 0.25:
             return sql + " " + self.simple(0)
         n = ncol or r.randint(1, 3)
-        rows = ["(" + ", ".join(self.expr(1) for _ in range(n)) + ")" for _ in range(r.randint(1, 3))]
+        if r.random() < 0.35:
+            # rows of plain literals (the parser keeps these as a literal table)
+            lit = lambda: r.choice([str(r.randint(1, 99)), "'a%d'" % r.randint(1, 9), "%d.5" % r.randint(1, 9)])
+            rows = ["(" + ", ".join(lit() for _ in range(n)) + ")" for _ in range(r.randint(1, 4))]
+        else:
+            rows = ["(" + ", ".join(self.expr(1) for _ in range(n)) + ")" for _ in range(r.randint(1, 3))]
         return sql + " values " + ", ".join(rows)
 
     def update(self):
